@@ -1,12 +1,12 @@
 SPECIFICATION Spec
 CONSTANTS
-  Node = {1, 2}
+  Node = {1, 2, 3}
   Weaken = {}
-  MCCl <- Cl2Sync
-  PszSet <- Psz1
-  CCSet <- NoCCs
-  Actors <- ActorsOne
-  Bound <- BoundTiny
+  MCCl <- ClConf
+  PszSet <- PszF
+  CCSet <- CCsConf
+  Actors <- ActorsConf
+  Bound <- BoundConf
 INVARIANTS
   C01_CommittedStable
   C01_AppliedAgree
